@@ -188,11 +188,11 @@ DoSolveStress(e) ==
               c01.kf \cup c03.kf \cup (IF Want("C05") THEN c05.kf ELSE {}) \cup SetIf(fixStress, "KF_FixStress:SOLVE.raised"),
               c05.hits \cup c01.hits \cup c16.hits \cup c03.hits, {}, c01.rejected \/ c03.rejected \/ outOfScope)
   /\ sol' = IF e.raised # "" \/ fm = None \/ ~e.finite \/ ~e.in_range THEN None
-            ELSE [lam |-> BestLambda(fm.rows, e.b, XR(e)),
-                  contaminated |-> KF_FarFromOrigin(env, bo.fit) \/ \E k \in DOMAIN fm.rows : \E i \in InternalEndingAt(m, fr, fm.rows[k].v) :
-                         LET q == PhysOf(env, fr.ifaces[i]) IN q # 0 /\
-                            (\/ KF_TwoPointIfc(env, q) \/ KF_SignForcedEnd(env, q, fm.rows[k].v)
-                             \/ KF_LineFitPerpEnd(env, q, fm.rows[k].v, Entry(fm.rows[k], ColOf(fm, i))))]
+            ELSE LET x == XR(e)
+                     lamFree == IF Len(fm.rows) = 0 THEN 0 ELSE TDiv(SumRes(fm.rows, e.b, x, 1), 2 * Len(fm.rows))
+                     inversion == 2 * Len(fm.rows) = Len(x) /\ e.opts.method = "default"
+                                  /\ ResidualSmall(fm.rows, e.b, x, lamFree, Len(x), 200)
+                 IN [lam |-> IF inversion THEN Abs(lamFree) ELSE BestLambda(fm.rows, e.b, x)]
   /\ UNCHANGED <<m, fr, env, fm, bo, pm, prev>>
 
 (******************************* pressure (C04) ***************************)
@@ -323,7 +323,12 @@ ComparePhys(A, B) ==
       dcMax == IF dcs = {} THEN 0 ELSE Min(20000, CHOOSE d \in dcs : \A d2 \in dcs : d >= d2)
       \* relabelling: the fits see the same points in another order (differences ~1e-4 for straight interfaces,
       \* ~1e-9 for arcs); first-order propagation through the true system: (tolC / 3e-3) * dc * 10
-      tolX == IF kind = "relabel" THEN 200 + Mul(A.tolC, dcMax) * 3333 ELSE A.tolC + B.tolC + 200
+      \* the perturbation of a solution is proportional to its magnitude: the conditioning-derived tolerances assume
+      \* tensions of order one (mean one); solutions of inconsistent square systems can be much larger
+      xs == {Abs(A.e.tens[j][2]) : j \in DOMAIN A.e.tens} \cup {Abs(B.e.tens[j][2]) : j \in DOMAIN B.e.tens} \cup {Q}
+      xScale == Min(20 * Q, CHOOSE v \in xs : \A w \in xs : v >= w)
+      tolX == IF kind = "relabel" THEN 200 + Mul(Mul(A.tolC, dcMax) * 3333, xScale)
+              ELSE Mul(A.tolC + B.tolC, xScale) + 200
       tolP == IF kind = "relabel" THEN 2000 + 10 * tolX ELSE 10 * (A.tolC + B.tolC) + 2000
       tolC2 == IF kind = "relabel" THEN 1500 ELSE 2 * TolTangent
       tensBad == {j \in DOMAIN A.e.tens : LET q == A.e.tens[j][1] IN q = 0 \/ ~Close(A.e.tens[j][2], Lookup2(B.e.tens, q), tolX)}
@@ -332,7 +337,7 @@ ComparePhys(A, B) ==
                                                ca == RotT(A.e.g.rot, <<A.e.coefs[j][3], A.e.coefs[j][4]>>)
                                                cb == RotT(B.e.g.rot, CoefOf(B.e.coefs, q, v))
                                            IN ~(Close(ca[1], cb[1], tolC2) /\ Close(ca[2], cb[2], tolC2))}
-      contaminated == both /\ (A.sol.contaminated \/ B.sol.contaminated)
+      contaminated == A.contaminated \/ B.contaminated
       lamPos == both /\ (A.sol.lam > 100 \/ B.sol.lam > 100)
       \* relabelling leaves the geometry alone: defects hit both runs alike, so nothing is excused there
       kfName == IF kind = "relabel" THEN "" ELSE IF contaminated THEN "KF_TangentDefects" ELSE IF lamPos THEN "KF_MultiplierNotRotationInvariant" ELSE ""
@@ -356,7 +361,12 @@ ComparePhys(A, B) ==
 
 DoPhys(e) ==
   /\ e.ev = "Phys"
-  /\ LET cur == [case |-> e.case, e |-> e, sol |-> sol, tolC |-> env.tolC, conditioned |-> env.conditioned]
+  /\ LET contam == fm # None /\ bo # None /\
+                   (KF_FarFromOrigin(env, bo.fit) \/ \E k \in DOMAIN fm.rows : \E i \in InternalEndingAt(m, fr, fm.rows[k].v) :
+                         LET q == PhysOf(env, fr.ifaces[i]) IN q # 0 /\
+                            (\/ KF_TwoPointIfc(env, q) \/ KF_SignForcedEnd(env, q, fm.rows[k].v)
+                             \/ KF_LineFitPerpEnd(env, q, fm.rows[k].v, Entry(fm.rows[k], ColOf(fm, i)))))
+         cur == [case |-> e.case, e |-> e, sol |-> sol, tolC |-> env.tolC, conditioned |-> env.conditioned, contaminated |-> contam]
      IN IF e.run = 1
         THEN EmitV(e, {}, {}, {}, {}, FALSE) /\ prev' = cur
         ELSE /\ (IF prev # None /\ prev.case = e.case
